@@ -12,6 +12,7 @@ From Borno Require Import Cli.
 From Borno Require Import EnvLaws.
 From Borno Require Import EvalInv.
 From Borno Require Import EvalFrame.
+From Borno Require Import ScenarioExamples.
 
 (** a name denotes the binding of the innermost scope on the parent chain that has one; unbound iff no scope on the chain binds it; never an artefact of the walk *)
 Theorem C03_env_get_innermost :
@@ -259,3 +260,9 @@ Theorem C03_call_ignores_caller_env :
          eval libm clock sched (S f) (ECall ce' pl' args') rho' s'.
 Proof. exact (@call_ignores_caller_env). Qed.
 Print Assumptions C03_call_ignores_caller_env.
+
+(** shadowing and lifetime on a concrete program, evaluated inside the kernel from source text; the transcript is what the real interpreter printed *)
+Theorem C03_scenario_shadowing :
+  transcript src_shadowing = Some ([[51]; [51]; [49]; [49; 48]; [49]], 0).
+Proof. exact (@scenario_shadowing). Qed.
+Print Assumptions C03_scenario_shadowing.
